@@ -16,7 +16,7 @@ import z3
 from pyvc.contract import ContractSet, LoopSpec
 from pyvc.vals import *       # noqa
 from pyvc import extract
-from pyvc.interp import Raised
+from pyvc.interp import Raised, MISSING as MISSING_
 from . import common
 from .common import emit, events_named
 
@@ -185,9 +185,16 @@ def build():
     def ev_wait(I, env, a, k):
         """asyncio.Event.wait(): returns at once when the flag IS set; otherwise suspends until someone sets it"""
         f = I.force(I.read_field(env["self"].ref, "flag")).t
-        emit(I, "flag.wait", was_set=VBool(f))
+        extra = {}
+        this = I.frames[0].env.get("self")
+        if this is not None and this.tag == "obj" and I.read_field(this.ref, "no_response_waiting") is not MISSING_ \
+                and I.frames[0].fc is not None and "send_and_wait" in I.frames[0].fc.key:
+            nrw = I.force(I.read_field(this.ref, "no_response_waiting")).ref
+            extra = dict(nrw=I.read_field(nrw, "flag"), queued=I.read_field(I.ghost, "n_queued"))
+        emit(I, "flag.wait", was_set=VBool(f), obj=env["self"].ref, **extra)
         if I.ctx.branch(f):
             return VBool(True)
+        I.trace[-1].args["suspended"] = True
         I.write_field(env["self"].ref, "flag", VBool(True))     # resumed by set()
         return VBool(True)
     A = "asyncio primitives (A-ASYNCIO)"
@@ -274,6 +281,62 @@ def build():
          ensures=[("the parser stops only when no complete message is left (or on shutdown)",
                    "not has_cr(self.received_msg) or self.machine.is_shutting_down")],
          modifies=["self.received_msg"], raises={"UnicodeDecodeError": "not self.ignore_decode_errors"})
+
+    # ---- lost responses are retried as configured
+    C.ghost.update(dict(n_queued=Int))
+    C.classes["FastSerialCommunicator"].fields["no_response_waiting"] = ObjS("AsyncEvent")
+    C.classes["FastSerialCommunicator"].fields["done_waiting"] = ObjS("AsyncEvent")
+
+    def queue_msg(I, env, a, k):
+        I.write_field(I.ghost, "n_queued", VInt(I.force(I.read_field(I.ghost, "n_queued")).t + 1))
+        emit(I, "queued", msg=a[0])
+        return NONE
+    C.ext("FastSerialCommunicator.send_with_confirmation", model=queue_msg,
+          trusted_reason="puts (message, confirmation header) on the send queue (writer: W1/W2)")
+    C.exc("TimeoutError", "Exception")
+    C.globals["asyncio"] = VFn("module", name="asyncio")
+    C.globals["asyncio.TimeoutError"] = VCls("TimeoutError")
+
+    def wait_for(I, a, k):
+        """asyncio.wait_for(awaitable, timeout): only an awaitable that actually SUSPENDS can time out.  Here: the last
+        thing evaluated was Event.wait() on a clear flag (it suspended) - the environment decides whether the flag is
+        set in time (the reader task got the response) or the timeout fires (the flag stays clear)."""
+        tr = I.cur_trace()
+        if tr and tr[-1].name == "flag.wait" and not z3.is_true(z3.simplify(I.force(tr[-1].args["was_set"]).t)) and \
+                tr[-1].args.get("suspended"):
+            if I.ctx.fork(2) == 1:
+                I.write_field(tr[-1].args["obj"], "flag", VBool(False))
+                emit(I, "timeout")
+                I.raise_("TimeoutError", "timeout")
+        return NONE
+    C.globals["asyncio.wait_for"] = VFn("model", model=wait_for)
+    C.fn("FastSerialCommunicator.send_and_wait_for_response", params=dict(msg=Str, pause_sending_until=Str,
+                                                                          log_msg=Opt(Str)), inline=True)
+
+    def final_wait_ok(I, max_retries):
+        """at the indefinite wait for done_waiting (no timeout): the response has been received, or all configured
+        attempts (1 + max_retries) have been made"""
+        this = I.frames[0].env["self"].ref
+        dw = I.force(I.read_field(this, "done_waiting")).ref
+        waits = [e for e in events_named(I, "flag.wait") if e.args["obj"] is dw]
+        if not waits:
+            return VBool(True)
+        e = waits[-1]
+        mr = I.force(max_retries).t
+        return VBool(z3.Or(I.force(e.args["nrw"]).t, z3.And(mr != -1, I.force(e.args["queued"]).t >= mr + 1)))
+    C.helpers["final_wait_ok"] = final_wait_ok
+    C.trace_helpers |= {"final_wait_ok"}
+    C.fn("FastSerialCommunicator.send_and_wait_for_response_processed",
+         params=dict(msg=Str, pause_sending_until=Str, timeout=Real, max_retries=Int, log_msg=Opt(Str)),
+         requires=[("max_retries is -1 (unlimited) or a number of retries", "max_retries >= -1"),
+                   ("ghost counter starts at zero", "ghost.n_queued == 0")],
+         loops_by_text={"max_retries": LoopSpec(
+             invariant=[("one message queued per attempt so far", "ghost.n_queued == retries and retries >= 0")],
+             modifies=["ghost.n_queued", "self.no_response_waiting.flag", "self.done_waiting.flag"])},
+         ensures=[("W3: a lost response is retried as configured rather than blocking forever: the caller only settles "
+                   "into the un-timed wait for done_waiting once the response has been received or all 1 + max_retries "
+                   "attempts have been made", "final_wait_ok(max_retries)")],
+         modifies=["ghost.n_queued", "self.no_response_waiting.flag", "self.done_waiting.flag"], raises={})
 
     C.assume("A-ASYNCIO: Event.wait() returns immediately when the flag is set; Queue.get() is FIFO; while the "
              "writer is suspended the reader may clear the pause flag but never sets it (rely)")
